@@ -5,6 +5,9 @@ A: StreamSM (TLC): a reference incremental framer that keeps the RAW tail from t
    (Arrive(n) for every n) of streams with special bytes at every body position, plus Complete and AppendOnly.
 B: the model's streams (its initial states, dumped) -> the real TcpClient: every single cut, pairs of cuts, 1-byte pieces,
    seeded multi-cuts; NetSource fed with message batches.
+Link: the whole receive path as one model (Trace_Link): TcpClient/NetSource -> pipe -> Decode wired together under a virtual
+   clock, fed with Beast / raw streams of aircraft histories cut at random; framing, NetSource batching and the resulting
+   table are checked step by step against Stream, the NetSource rule and Tracker.Process.
 C: every run is a trace (start / step ...) validated by TLC (Trace_Stream) step by step; plus seeded random streams
    (0x1A density ~10 %) x random chunkings.
 """
@@ -178,7 +181,96 @@ def validate_runs(ctx, ev):
     return rejected
 
 
+def link_vectors(ctx):
+    """the whole receive path: message histories of the C17 driver serialised as Beast / raw streams, cut at random, with
+    a virtual clock that advances per chunk"""
+    from . import c17
+    rng = ctx.rng
+    V = []
+    for k in range(ctx.pick(120, 3000)):
+        h = c17.history(ctx, rng, k)
+        kind = "beast" if k % 3 else "raw"
+        frs = []
+        for call in h["script"]:
+            msgs = sorted(call["adsb"] + call["commb"], key=lambda m: m["t"])
+            for m in msgs:
+                if kind == "beast":
+                    if rng.random() < 0.2:       # short replies and other record types in between
+                        frs.append(rng.choice([{"ty": 0x32, "body": [rng.randrange(256) for _ in range(7)] + gen.rand_frame_df(rng, rng.choice([4, 5, 11]))},
+                                               {"ty": 0x31, "body": [rng.randrange(256) for _ in range(9)]},
+                                               {"ty": 0x34, "body": [0x1A if rng.random() < 0.3 else rng.randrange(256) for _ in range(9)]}]))
+                    frs.append({"ty": 0x33, "body": [0x1A if rng.random() < 0.1 else rng.randrange(256) for _ in range(7)] + list(m["f"])})
+                else:
+                    t = bytes(m["f"]).hex()
+                    if rng.random() < 0.5:
+                        t = t.upper()
+                    frs.append({"text": [ord(c) for c in t], "sep": rng.choice([[10], [13, 10], []])})
+            if len(frs) > 40:
+                break
+        if not frs:
+            continue
+        n = wire_len(kind, frs)
+        ncut = rng.randint(1, min(n - 1, 25))
+        cuts = sorted(rng.sample(range(1, n), ncut))
+        t = 2000
+        times = []
+        for _ in range(ncut + 1):
+            t += rng.choice([0, 1, 1, 2, 5, 19, 21, 60, 119, 123, 362])
+            times.append(t)
+        V.append({"fn": "link.run", "kind": kind, "frs": frs, "cuts": cuts, "times": times, "rx": h["rx"]})
+    return V
+
+
+def validate_link(ctx, ev):
+    import concurrent.futures as cf
+    from ..core import NCPU
+    shards = [ev[k::NCPU] for k in range(NCPU)]
+    byid = {e["id"]: e for e in ev}
+
+    def one(k):
+        part = shards[k]
+        if not part:
+            return None
+        lines = []
+        for e in part:
+            lines.append({"ev": "start", "run": e["id"], "id": e["id"] * 1000, "kind": e["kind"], "frs": e["frs"], "rx": e["rx"]})
+            for q, st in enumerate(e["res"].get("v", [])):
+                lines.append({"ev": "step", "run": e["id"], "id": e["id"] * 1000 + q + 1, "n": st["n"], "now": st["now"], "handed": st["handed"],
+                              "sent": st["sent"], "post": st["post"], "exc": st["exc"], "dup": st["dup"]})
+        fn = os.path.join(ctx.tmp, "lk_%d.ndjson" % k)
+        with open(fn, "w") as f:
+            for x in lines:
+                f.write(json.dumps(x, separators=(",", ":")) + "\n")
+        r = tlc.run("Trace_Link", cfg="Trace_Link.cfg", workers=1, env={"TRACE_FILE": fn}, timeout=3000)
+        os.unlink(fn)
+        return r, len(lines)
+
+    out = []
+    with cf.ThreadPoolExecutor(max_workers=NCPU) as ex:
+        for res in ex.map(one, range(NCPU)):
+            if res is None:
+                continue
+            r, nlines = res
+            if not r.ok:
+                raise tlc.MachineryError("Trace_Link failed\n%s" % (r.error_text or r.out[-3000:]))
+            done = [x for x in r.prints if x[0] == "DONE"]
+            if not done or done[-1][1] != nlines or done[-1][2] - 1 != nlines:
+                raise tlc.MachineryError("link trace not fully consumed %r vs %d" % (done, nlines))
+            rej = [x for x in r.prints if x[0] == "REJECT"]
+            if len(rej) != done[-1][3]:
+                raise tlc.MachineryError("REJECT count mismatch")
+            for x in rej:
+                out.append((byid[x[1] // 1000], x[1] % 1000, x[2]))
+            ctx.states += r.distinct
+            ctx.transitions += r.generated
+            ctx.validated += nlines - len(rej)
+            ctx.tlc_runs.append({"module": "Trace_Link", "role": "C", "events": nlines, "rejected": len(rej), "wall_s": round(r.wall, 2)})
+    return out
+
+
 def case_of(e):
+    if e["fn"] == "link.run":
+        return ("link", e["id"])
     if e["fn"] == "net.run":
         return ("net", json.dumps(e["batches"]))
     return (e["kind"], json.dumps(e["frs"], sort_keys=True), tuple(e["cuts"]))
@@ -192,7 +284,18 @@ def run(ctx):
     streams = model_streams(ctx)
     ctx.extra["model_streams"] = len(streams)
     ev = ctx.replay(vectors(ctx, streams))
-    for e in ev:
+    lev = ctx.replay(link_vectors(ctx))
+    ctx.extra["link_runs"] = len(lev)
+    ctx.evaluations += sum(len(e["res"].get("v", [])) for e in lev)
+    for e, step, why in validate_link(ctx, lev):
+        if why.startswith("drift:"):
+            ctx.drift += 1
+            ctx.drift_kinds = getattr(ctx, "drift_kinds", {})
+            ctx.drift_kinds[why] = ctx.drift_kinds.get(why, 0) + 1
+            continue
+        ctx.violation(why, {"fn": "link.run", "id": e["id"], "step": step, "kind": e["kind"], "frs": e["frs"], "cuts": e["cuts"],
+                            "times": e["times"], "rx": e["rx"], "res": {"t": "steps", "v": e["res"].get("v", [])[max(0, step - 1):step]}})
+    for e in ev + lev:
         ctx.distinct.add(case_of(e))
     ctx.evaluations += sum(len(e["res"].get("v", [])) for e in ev if e["fn"] == "stream.run")
     smp = dict(ev[len(ev) // 2])
@@ -211,8 +314,18 @@ def replay(ctx, path):
         e = c["event"]
         if e["fn"] == "stream.run":
             V.append({"fn": "stream.run", "kind": e["kind"], "frs": e["frs"], "cuts": e["cuts"]})
+        elif e["fn"] == "link.run":
+            continue
         else:
             V.append({"fn": "net.run", "batches": e["batches"]})
+    L = [{"fn": "link.run", "kind": c["event"]["kind"], "frs": c["event"]["frs"], "cuts": c["event"]["cuts"], "times": c["event"]["times"],
+          "rx": c["event"]["rx"]} for c in cases if c["event"]["fn"] == "link.run"]
+    if L:
+        lev = ctx.replay(L)
+        for e, step, why in validate_link(ctx, lev):
+            if not why.startswith("drift:"):
+                ctx.violation(why, {"fn": "link.run", "id": e["id"], "step": step, "kind": e["kind"], "frs": e["frs"], "cuts": e["cuts"],
+                                    "times": e["times"], "rx": e["rx"], "res": e["res"]})
     ev = ctx.replay(V)
     for e, why in validate_runs(ctx, ev):
         ctx.violation(why, {"fn": e["fn"], "id": e["id"], "kind": e.get("kind"), "frs": e.get("frs"), "cuts": e.get("cuts"),
